@@ -3,6 +3,7 @@ package adapt
 import (
 	"context"
 	"errors"
+	"github.com/aws/smithy-go"
 	"sync/atomic"
 	"time"
 
@@ -169,6 +170,11 @@ func (c *V2) Do(op Op) (out Outcome) {
 	fin := func(err error) Outcome {
 		cls, msg := ClassifyErr(err)
 		o := Outcome{Class: cls, Msg: msg}
+		switch cls {
+		case ClsValidation, ClsCondFailed, ClsNotFound, ClsInUse, ClsInternal:
+			var api smithy.APIError
+			o.ErrNotAPI = !errors.As(err, &api)
+		}
 		var ccf *v2types.ConditionalCheckFailedException
 		if errors.As(err, &ccf) && ccf.Item != nil {
 			o.HasCCF = len(ccf.Item) > 0
